@@ -21,7 +21,7 @@ from typing import Any, Dict, Iterable, List, Optional, Tuple
 
 VERIF = Path(__file__).resolve().parents[2]
 LEAN = VERIF / "lean"
-REPO = Path(os.environ.get("VERIF_REPO", "/repo"))
+REPO = Path(os.environ.get("VERIF_REPO", "/repo"))  # scratch worktrees: VERIF_REPO=/tmp/wt ./check Cnn
 EVIDENCE = VERIF / "evidence"
 REPLAYS = VERIF / "replays"
 CORPUS = VERIF / "corpus"
@@ -59,11 +59,35 @@ def lake_build(targets: List[str], timeout: int = 1500) -> Tuple[bool, str]:
     return p.returncode == 0, "\n".join(keep[:60])
 
 
-def run_driver(lines: List[str], timeout: int = 900) -> List[str]:
+DRIVER_TMPL = """/- generated: line-protocol driver for {pid} (`lake env lean --run`). One output line per input line. -/
+import Cel.Drv.{pid}
+
+partial def loop (h : IO.FS.Stream) (out : IO.FS.Stream) : IO Unit := do
+  let line ← h.getLine
+  if line.isEmpty then return ()
+  let toks := (line.trimAscii.toString.splitOn " ").filter (· ≠ "")
+  out.putStrLn (Cel.Drv.{pid}.handle toks)
+  loop h out
+
+def main : IO Unit := do
+  let out ← IO.getStdout
+  loop (← IO.getStdin) out
+  out.flush
+"""
+
+
+def run_driver(pid: str, lines: List[str], timeout: int = 900) -> List[str]:
+    """Pipe `lines` (tokens separated by single spaces) to `Cel.Drv.<pid>.handle`."""
     if not lines:
         return []
+    d = LEAN / ".drivers"
+    d.mkdir(exist_ok=True)
+    f = d / f"Driver_{pid}.lean"
+    text = DRIVER_TMPL.format(pid=pid)
+    if not f.exists() or f.read_text() != text:
+        f.write_text(text)
     data = "\n".join(lines) + "\n"
-    p = subprocess.run(["lake", "env", "lean", "--run", "Driver.lean"], cwd=LEAN, input=data,
+    p = subprocess.run(["lake", "env", "lean", "--run", str(f)], cwd=LEAN, input=data,
                        capture_output=True, text=True, timeout=timeout)
     out = p.stdout.split("\n")
     if out and out[-1] == "":
@@ -187,6 +211,7 @@ def load_findings(pid: str) -> List[Dict[str, str]]:
 class Prop:
     pid = "C00"
     title = ""
+    manifest: Dict[str, str] = {}        # technique / text / note / ref for MANIFEST.json
     lean_targets: List[str] = []        # modules to build (Props + Bridge)
     audit_namespaces: List[str] = []    # namespaces whose theorems are the obligations
     gen_names: List[str] = []           # Gen files this property depends on
@@ -454,12 +479,12 @@ def evaluate_cases(prop: Prop, cases: List[Dict[str, Any]], use_driver: bool) ->
         for i, c in enumerate(cases):
             l = prop.model_line(c)
             if l is not None:
-                lines.append(f"{pid} {l}")
+                lines.append(l)
                 idx.append(i)
     model_outs: Dict[int, str] = {}
     if lines:
         try:
-            mo = run_driver(lines)
+            mo = run_driver(pid, lines)
             model_outs = dict(zip(idx, mo))
         except Exception as ex:
             print(f"note: Lean driver unavailable ({str(ex)[:200]})")
